@@ -180,7 +180,7 @@ pub fn global_init(run_once: RunOnce) {
     let default_hook = std::panic::take_hook();
     let _ = default_hook; // shuttle's wrapper around the default hook; dropped
     std::panic::set_hook(Box::new(|info| {
-        if info.payload().downcast_ref::<CrashPayload>().is_some() {
+        if info.payload().downcast_ref::<CrashPayload>().is_some() || info.payload().downcast_ref::<crate::ctx::ExitPayload>().is_some() {
             return;
         }
         let loc = info.location().map(|l| format!("{}:{}", short_path(l.file()), l.line())).unwrap_or_default();
@@ -573,12 +573,23 @@ pub fn run_invocation(scratch: &mut Scratch, tree: &Tree, inv: &Inv, out: &Path)
             }
             crate::hashseed::set_thread_hash_seed(0);
             crate::hashseed::set_thread_wall_clock(0);
+            // (std::process::exit inside the code under test is not simulated: std allows one exit
+            // per process, so it ends the simulator; the wrapper script reports that as exit 2)
+            let exit_status: Option<i32> = None;
             let c = ctx::take().expect("ctx vanished");
             let st = state.lock().unwrap();
             let mut panic_message = String::new();
             let class = match res {
                 Err(payload) => {
-                    if payload.downcast_ref::<CrashPayload>().is_some() || c.crashed {
+                    // (the "deadlock" shuttle reports after a process::exit is the parked caller)
+                    if payload.downcast_ref::<crate::ctx::ExitPayload>().is_some() || exit_status.is_some() {
+                        // the code under test ended the process itself: status 0 is success
+                        if exit_status.or(payload.downcast_ref::<crate::ctx::ExitPayload>().map(|e| e.0)) == Some(0) {
+                            ResultClass::Ok
+                        } else {
+                            ResultClass::Err
+                        }
+                    } else if payload.downcast_ref::<CrashPayload>().is_some() || c.crashed {
                         ResultClass::Crashed
                     } else {
                         panic_message = if let Some(s) = payload.downcast_ref::<&str>() {
@@ -610,6 +621,7 @@ pub fn run_invocation(scratch: &mut Scratch, tree: &Tree, inv: &Inv, out: &Path)
                 }
             };
             let err_text = match &c.cli_result {
+                None if exit_status.map(|s| s != 0).unwrap_or(false) => format!("process::exit({})", exit_status.unwrap_or(0)),
                 Some(Err(e)) => {
                     let e = e.split("\n\nStack backtrace:").next().unwrap_or(e);
                     ctx::scrub(&c.root, e)
